@@ -31,6 +31,7 @@ type Solver struct {
 }
 
 var solverTimeoutMs = 30000
+var slowMs = func() int { v, _ := strconv.Atoi(os.Getenv("GOSYM_SLOW")); return v }()
 
 func newSolver(kind string) *Solver {
 	s := &Solver{name: kind}
@@ -202,6 +203,9 @@ func (s *Solver) Check(asserts []*Term, wantModel bool) (string, Model) {
 	}
 	io.WriteString(s.in, "(pop 1)\n")
 	d := time.Since(t0)
+	if slowMs > 0 && d > time.Duration(slowMs)*time.Millisecond {
+		fmt.Fprintf(os.Stderr, "SLOW QUERY %.0fms %s:\n%s\n", float64(d.Milliseconds()), res, b.String())
+	}
 	s.Dur += d
 	if d > s.Slowest {
 		s.Slowest = d
